@@ -44,12 +44,12 @@ POOL = ["Au", "Cu", "Zn", "Pb", "Ag", "Fe"]
 OBJECT_LABELS = ("Surveys", "Trace", "Property Group IDs", "TraceDepth")
 PROFILES = ["mixed", "readd", "rename", "tables", "zero", "reopen", "mixed", "removal"]
 WEIGHTS = {
-    "mixed": dict(add_hole=2, new_table=4, add_to_table=4, update=4, rename=1, rm_data=3, rm_pg=1, rm_hole=2, reopen=3, copy_hole=1, table_push=1, copy_group=0.5),
+    "mixed": dict(rename_clash=0.7, add_hole=2, new_table=4, add_to_table=4, update=4, rename=1, rm_data=3, rm_pg=1, rm_hole=2, reopen=3, copy_hole=1, table_push=1, copy_group=0.5),
     "readd": dict(add_hole=1, new_table=5, add_to_table=3, update=2, rename=0, rm_data=5, rm_pg=3, rm_hole=2, reopen=3, copy_hole=0, table_push=0, copy_group=0),
-    "rename": dict(add_hole=1, new_table=3, add_to_table=3, update=2, rename=5, rm_data=1, rm_pg=0, rm_hole=0, reopen=3, copy_hole=0, table_push=0, copy_group=0),
+    "rename": dict(rename_clash=2, add_hole=1, new_table=3, add_to_table=3, update=2, rename=5, rm_data=1, rm_pg=0, rm_hole=0, reopen=3, copy_hole=0, table_push=0, copy_group=0),
     "tables": dict(add_hole=2, new_table=3, add_to_table=2, update=2, rename=0, rm_data=1, rm_pg=1, rm_hole=1, reopen=2, copy_hole=0, table_push=5, copy_group=0),
     "zero": dict(add_hole=2, new_table=5, add_to_table=3, update=2, rename=0, rm_data=4, rm_pg=2, rm_hole=1, reopen=3, copy_hole=1, table_push=0, copy_group=0),
-    "reopen": dict(add_hole=1, new_table=3, add_to_table=3, update=4, rename=0, rm_data=3, rm_pg=1, rm_hole=2, reopen=8, copy_hole=1, table_push=1, copy_group=1),
+    "reopen": dict(rename_clash=0.7, add_hole=1, new_table=3, add_to_table=3, update=4, rename=0, rm_data=3, rm_pg=1, rm_hole=2, reopen=8, copy_hole=1, table_push=1, copy_group=1),
     "removal": dict(add_hole=1, new_table=2, add_to_table=2, update=1, rename=0, rm_data=5, rm_pg=3, rm_hole=4, reopen=4, copy_hole=1, table_push=0, copy_group=1),
 }
 
@@ -531,6 +531,21 @@ class Driver:
             t = hm["tables"][pg]
             t["props"] = {(new if k == nm else k): v for k, v in t["props"].items()}
             return True
+        if kind == "rename_clash":
+            # a rename onto a name the same hole already uses must be refused and must leave everything as it was
+            if not props or len(m.names(u)) < 2:
+                return False
+            pg, nm = rng.choice(props)
+            other = rng.choice(sorted(n for n in m.names(u) if n != nm))
+            d = self.data(u, nm)
+            try:
+                d.name = other
+            except Exception as exc:  # noqa: BLE001
+                self.refuse(kind, exc)
+                rec.see("refused-rename-clashes")
+                return False
+            rec.fail("C04.values-live", op=kind, cls="data-names", attr="clash-accepted", detail=f"hole {hm['name']}: data {nm!r} was renamed to {other!r}, a name the hole already uses")
+            raise StopCase
         if kind == "rm_data":
             if not props:
                 return False
@@ -572,8 +587,10 @@ class Driver:
             rec.see("via:" + via)
             return True
         if kind == "rm_hole":
-            if len(m.holes) < 2:
-                return False
+            if len(m.holes) < 2 and rng.random() < 0.6:
+                return False  # the last hole of the group goes too, less often
+            if len(m.holes) == 1:
+                rec.see("last-hole-removals")
             try:
                 if via == "workspace":
                     self.ws.remove_entity(h)
